@@ -398,8 +398,10 @@ func CheckC05(r *core.Run) {
 	// every behaviour of PQ.tla within small bounds (real layout constants) on the real queue
 	if r.Thorough() {
 		traces = append(traces, replayPQ(r, "PQReplay_t.cfg", 10)...)
+		traces = append(traces, replayPQSim(r, "PQReplay_sim.cfg", 300, 70, 10)...)
 	} else {
 		traces = append(traces, replayPQ(r, "PQReplay_q.cfg", 2)...)
+		traces = append(traces, replayPQSim(r, "PQReplay_sim.cfg", 25, 60, 5)...)
 	}
 	pqSample(r, traces)
 	{
